@@ -374,7 +374,11 @@ fn op_gnb(em: &mut Em, h: &Hist, p: usize, vs: f64) {
     let body = |ctx: &mut Ctx| {
         let (states, _) = match gnb_run(h, p, vs) {
             Ok(x) => x,
-            Err(_) => return "err".to_string(),
+            Err(e) => {
+                // the only errors of the real code are the two guards (no feature column, empty batch)
+                ctx.require(!valid, "fit_succeeds", "gnb", || format!("fit_with returned an error on a valid history: {}", e));
+                return "err".to_string();
+            }
         };
         let (rows, labels) = concat(h);
         let want = gnb_textbook(&rows, &labels, p, vs);
@@ -689,9 +693,13 @@ fn gnb_pred_ok(h: &Hist, p: usize, vs: f64) -> bool {
     let (rows, labels) = concat(h);
     let t = gnb_textbook(&rows, &labels, p, vs);
     let all_pos = |s: &NbState| s.values().all(|(_, _, _, sg)| sg.iter().all(|v| *v > 0.0 && v.is_finite()));
-    match gnb_run(h, p, vs) {
-        Ok((states, _)) => all_pos(&t) && all_pos(states.last().unwrap()),
-        Err(_) => false,
+    // the real code runs here outside a case: a panic must not take the harness down (the op is then emitted
+    // and the panic is recorded inside the case)
+    let r = std::panic::catch_unwind(std::panic::AssertUnwindSafe(|| gnb_run(h, p, vs)));
+    match r {
+        Ok(Ok((states, _))) => all_pos(&t) && all_pos(states.last().unwrap()),
+        Ok(Err(_)) => false,
+        Err(_) => true,
     }
 }
 fn mnb_pred_ok(h: &Hist, p: usize, alpha: f64, qs: &Rows) -> bool {
@@ -702,9 +710,11 @@ fn mnb_pred_ok(h: &Hist, p: usize, alpha: f64, qs: &Rows) -> bool {
     // undefined, the arg-max of the real code panics) - such queries are left out
     let (rows, labels) = concat(h);
     let t = mnb_textbook(&rows, &labels, p, alpha);
-    match mnb_run(h, p, alpha) {
-        Ok((states, _)) => qs.iter().all(|q| scores_defined(&mnb_jll(&t, q)) && scores_defined(&mnb_jll(states.last().unwrap(), q))),
-        Err(_) => false,
+    let r = std::panic::catch_unwind(std::panic::AssertUnwindSafe(|| mnb_run(h, p, alpha)));
+    match r {
+        Ok(Ok((states, _))) => qs.iter().all(|q| scores_defined(&mnb_jll(&t, q)) && scores_defined(&mnb_jll(states.last().unwrap(), q))),
+        Ok(Err(_)) => false,
+        Err(_) => true,
     }
 }
 fn gen_queries(rng: &mut Rng, rows: &Rows, p: usize, hi: bool) -> Rows {
@@ -804,8 +814,8 @@ pub fn run(em: &mut Em, rng: &mut Rng) {
     let _ = rayon::ThreadPoolBuilder::new().num_threads(1).build_global();
     let thorough = em.thorough();
     // --- naive Bayes: every ordered partition of small datasets (n <= 7) into non-empty batches
-    let nmax = if thorough { 9 } else { 7 };
-    let reps = if thorough { 4 } else { 2 };
+    let nmax = if thorough { 10 } else { 8 };
+    let reps = if thorough { 3 } else { 2 };
     for n in 1..=nmax {
         for _ in 0..reps {
             let p = 1 + rng.below(3);
@@ -817,7 +827,7 @@ pub fn run(em: &mut Em, rng: &mut Rng) {
         }
     }
     // random cuts of larger datasets
-    let extra = if thorough { 1500 } else { 150 };
+    let extra = if thorough { 3000 } else { 300 };
     for _ in 0..extra {
         let n = 8 + rng.below(if thorough { 120 } else { 40 });
         let p = 1 + rng.below(4);
@@ -874,7 +884,7 @@ pub fn run(em: &mut Em, rng: &mut Rng) {
         op_mnb(em, &cut_at(&dm.0, &dm.1), p, alpha);
     }
     // balanced histories: var_smoothing > 0 and incremental == textbook must hold exactly
-    let hmax = if thorough { 7 } else { 5 };
+    let hmax = if thorough { 8 } else { 6 };
     for half in 1..=hmax {
         for _ in 0..reps {
             let p = 1 + rng.below(3);
@@ -901,4 +911,28 @@ pub fn run(em: &mut Em, rng: &mut Rng) {
 
     km::run(em, rng);
     ftrl::run(em, rng);
+
+    // floors: the streams the clauses above depend on must actually have been generated (a replay of a single
+    // case skips this)
+    if em.only.is_none() {
+        let floors: [(&str, u64); 9] = [
+            ("nb:class_incomplete_batch", 150),
+            ("gnb:var_smoothing>0", 110),
+            ("gnb:balanced:multi", 60),
+            ("op:gnb_pred", 230),
+            ("op:mnb_pred", 190),
+            ("nb:real_valued", 100),
+            ("km_init:kmeans++", 40),
+            ("ftrl:logit<-35", 20),
+            ("ftrl:logit>35", 20),
+        ];
+        let dist = em.dist.clone();
+        em.case("#floors".to_string(), |ctx| {
+            for (key, min) in floors.iter() {
+                let got = dist.get(*key).cloned().unwrap_or(0);
+                ctx.require(got >= *min, "generator_floor", "floors", || format!("only {} cases of {} generated (floor {})", got, key, min));
+            }
+            "-".to_string()
+        });
+    }
 }
